@@ -184,6 +184,8 @@ def run(res, tier, sc, drv, ws):
                           {"property": "C06", "program": prog, "status": st_, "file": fpath})
     gen_rows = {"contexts": len(GEN_CONTEXTS), "faults": len(GEN_FAULTS), "declaration_faults": len(DECL_FAULTS), "programs": 0, "rejected": 0, "contexts_accepted": 0}
     gen_rows["module_faults"] = len(MODULE_FAULTS)
+    from vlib.common import load_known
+    known_faults = {k["fault"]: k for k in load_known("C06") if k.get("fault")}
     for name, prog, must in generated_rejects() + declaration_rejects() + module_rejects():
         st_ = compile_status(drv, sc, prog, lib=MOD_LIB if name.startswith("module") else None)
         gen_rows["programs"] += 1
@@ -194,6 +196,8 @@ def run(res, tier, sc, drv, ws):
                 gen_rows["contexts_accepted"] += 1
         elif st_ == "rejected":
             gen_rows["rejected"] += 1
+        elif name in known_faults:
+            res.known("%s %s" % (known_faults[name]["id"], known_faults[name]["short"]))
         else:
             res.violation("compile_sources %s an ill-formed program (fault@context %s)" % ("accepts" if st_ == "ok" else "answers %s for" % st_, name),
                           {"property": "C06", "program": prog, "status": st_, "fault_at_context": name, "library_module": MOD_LIB if name.startswith("module") else None})
@@ -232,6 +236,7 @@ class Cell<T>(val content: T) { function <T> of(content: T): Cell<T> = Cell.init
 class Secret { private function hidden(): int = 1 }
 class Helper {
   function one(a: int): int = a
+  function plainV(p: Plain): int = p.v
   function two(a: int, b: int): int = a + b
   function <T> id(t: T): T = t
   function apply(f: (int) -> int): int = f(1)
@@ -252,6 +257,10 @@ GEN_FAULTS = {
     "bound_result_used": "Cmp.maxOf(Plain.init(1), Plain.init(2)).v",
     "bound_function_value_under_hint": "{ let g: (Plain) -> int = Cmp.key; g(Plain.init(1)) }",
     "field_on_class_object": "Plain.v",
+    # the class itself where an instance is expected
+    "class_object_as_argument": "Helper.plainV(Plain)",
+    "class_object_as_branch": "Helper.plainV(if Helper.one(1) > 9 { Plain.init(1) } else { Plain })",
+    "class_object_in_generic_container": "Helper.plainV(Cell.of(Plain).content)",
     "operand_type": '(1 + "a")',
     "unknown_member": "Plain.init(1).nope",
     "arity": "Helper.two(1)",
@@ -326,6 +335,11 @@ def generated_rejects():
 # declaration and must be accepted, so that the rejection is due to the fault and not to the surrounding program.
 DECL_MAIN = "class Main { function main(): unit = {  } }\n"
 DECL_FAULTS = {
+    # a method's own type parameter has the name of the type parameter the caller instantiates the class with
+    "argument_type_hidden_by_type_parameter_capture": (
+        "class Box<T>(val v: T) { method <A> pair(a: A, t: T): int = 1 }\nclass Use { function <A> f(b: Box<A>, x: A): int = b.pair(1, 2) }\n",
+        # (the twin renames the method's parameter: with the clash even the well-typed call b.pair(1, x) is refused)
+        "class Box<T>(val v: T) { method <C> pair(a: C, t: T): int = 1 }\nclass Use { function <A> f(b: Box<A>, x: A): int = b.pair(1, x) }\n"),
     # one generic interface reached twice with different type arguments: each instantiation constrains the member
     "conformance_second_instantiation_via_interfaces": (
         "interface Producer<T> { method produce(): T }\ninterface IntP : Producer<int> {}\ninterface BoolP : Producer<bool> {}\n"
